@@ -17,6 +17,19 @@ from vlib import coq_bytes
 import bhlib
 
 
+def read_text(path):
+    try:
+        return open(path, encoding="utf-8", errors="replace").read()[:4000]
+    except (OSError, TypeError):
+        return None
+
+
+def redef_norm(e):
+    if not e:
+        return e
+    return re.sub(r":\d+: redefinition of [\w./]+\(\), previously defined at (.*?):\d+$", r": redefinition of <a group>, previously defined at \1", e)
+
+
 def cstr(s):
     return '"%s"%%string' % s.replace('"', '""')
 
@@ -103,16 +116,18 @@ def run(c):
         tmp = os.path.join(c.work, "tmp-" + tag)
         gendir = os.path.join(c.work, "gen-" + tag)
         os.makedirs(tmp, exist_ok=True)
-        rc, out = c.run_harness(hb, ["-n", str(n), "-nrules", str(nrules), "-seed", str(seed), "-tmp", tmp, "-gendir", gendir,
-                                     "-repo", c.repo], timeout=900)
+        rc, out = c.run_harness(hb, ["-n", str(n), "-nrules", str(nrules), "-nhist", str(max(24, 2 * nrules)), "-seed", str(seed),
+                                     "-tmp", tmp, "-gendir", gendir, "-repo", c.repo], timeout=900)
         cases = []
         for line in out.split("\n"):
             line = line.strip()
             if line.startswith("{"):
                 try:
-                    cases.append(json.loads(line))
+                    obj = json.loads(line)
                 except ValueError:
-                    pass
+                    continue
+                if "history" not in obj:
+                    cases.append(obj)
         if rc != 0 or not cases:
             c.obligation("harness-run:c05", False, out[-2000:])
             return cases, {}
@@ -189,25 +204,42 @@ def run(c):
                     coq[int(mm.group(1))] = tuple(x == "true" for x in mm.groups()[1:])
                 if not re.search(r"RES\s*=", out):
                     c.obligation("coq-eval-parse:" + fname, False, out[-1500:])
-        # load histories (two files into one engine, optional GroupFilter): ids < 0
+        # load histories (several files into one engine, every step from source or from the shared precompiled value,
+        # optional GroupFilter): ids < 0; the reference is the engine that loads everything from source
         byid = {cs["id"]: cs for cs in cases}
+        nsens = nmixed = 0
         for rid, res in sorted(results.items()):
             if rid >= 0:
                 continue
             c.count()
-            names = [byid[i]["name"] for i in res.get("pair") or [] if i in byid]
-            inp = {"load_history": names, "rules_paths": [byid[i].get("rules_path") for i in res.get("pair") or [] if i in byid],
+            ids = [i for i in res.get("pair") or [] if i in byid]
+            names = ["%s:%s" % (mode, byid[i]["name"]) for i, mode in zip(ids, res.get("modes") or [])]
+            inp = {"load_history": names, "rules_paths": [byid[i].get("rules_path") for i in ids],
+                   "rules_sources": {byid[i]["name"]: read_text(byid[i].get("rules_path")) for i in ids if byid[i]["kind"] != "fixture"},
                    "group_filter": "len(name) even" if res.get("filtered") else None, "seed": c.seed}
-            ea, eb = res.get("load_err_a"), res.get("load_err_b")
+            # mergeRuleSets names the first redefined group it meets while ranging over a Go map: which one is not determined
+            ea, eb = redef_norm(res.get("load_err_a")), redef_norm(res.get("load_err_b"))
+            nsens += bool(res.get("order_sensitive"))   # measured on all-source engines only (forward vs reverse order)
+            nmixed += bool(res.get("mixed_modes"))
+            if res.get("mutated"):
+                c.fail("oracle", "LoadFromIR changed the *ir.File value it was given (a precompiled value is a package-level variable, every later load reads it)",
+                       input=inp, observed=res["mutated"], expected="the value is left as the compiler built it")
             if (ea is None) != (eb is None) or (ea and eb and ea != eb):
-                c.fail("oracle", "loading two rules files into one engine: Load and LoadFromIR disagree", input=inp,
-                       observed={"Load": ea, "LoadFromIR": eb}, expected="same outcome")
+                c.fail("oracle", "loading several rules files into one engine: the all-source history and the history with precompiled files disagree on the outcome",
+                       input=inp, observed={"all from source": ea, "history": eb}, expected="same outcome")
             elif not ea and not (res["groups_equal"] and res["reports_equal"]):
-                c.fail("oracle", "engine built from two printed IR files differs from the engine built from the two sources",
+                c.fail("oracle", "engine built by a load history with precompiled files differs from the engine that loaded the same files from source",
                        input=inp, observed=res.get("load_diff"), expected="same LoadedGroups and same reports")
-            elif not ea:
+            else:
                 c.coverage["load_histories_compared"] = c.coverage.get("load_histories_compared", 0) + 1
+                if ea:
+                    c.coverage["load_histories_rejected_alike"] = c.coverage.get("load_histories_rejected_alike", 0) + 1
                 c.nontriv(("history", tuple(names), bool(res.get("filtered"))))
+        c.coverage["load_histories_order_sensitive"] = c.coverage.get("load_histories_order_sensitive", 0) + nsens
+        c.coverage["load_histories_mixed_source_ir"] = c.coverage.get("load_histories_mixed_source_ir", 0) + nmixed
+        if any(r < 0 for r in results) and nsens < 3:
+            c.obligation("histories-order-sensitive:" + tag, False,
+                         "only %d load histories in which the order of the merged rules is observable (need >= 3)" % nsens)
         ops_seen = set()
         for cs in cases:
             c.count()
@@ -243,10 +275,18 @@ def run(c):
                 c.fail("oracle", "evaluating the printed literal does not give back the IR value (reflect.DeepEqual)",
                        input=inp, observed=(res.get("diff") or "")[:1500], expected="equal values")
             if cs.get("rules_path"):
+                if cs["kind"] != "fixture":
+                    inp["rules_source"] = read_text(cs["rules_path"])
                 ea, eb = res.get("load_err_a"), res.get("load_err_b")
+                if res.get("mutated"):
+                    c.fail("oracle", "LoadFromIR changed the *ir.File value it was given (a precompiled value is a package-level variable, every later load reads it)",
+                           input=inp, observed=res["mutated"], expected="the value is left as the compiler built it")
                 if (ea is None) != (eb is None) or (ea and eb and ea != eb):
                     c.fail("oracle", "Load and LoadFromIR disagree on accepting the rules", input=inp,
-                           observed={"Load": ea, "LoadFromIR": eb}, expected="same outcome")
+                           observed={"Load": ea, "LoadFromIR": eb}, expected="same outcome on every load of the same precompiled value")
+                elif ea and cs.get("may_reject"):
+                    # a construct the loader is free to reject -- both forms are rejected with the same message
+                    c.coverage["load_rejections_agree"] = c.coverage.get("load_rejections_agree", 0) + 1
                 elif ea:
                     c.fail("corr", "rules file does not load (harness generator)", input=inp, observed=ea)
                 elif not (res["groups_equal"] and res["reports_equal"]):
@@ -255,6 +295,7 @@ def run(c):
                 else:
                     c.coverage.setdefault("load_pairs_compared", 0)
                     c.coverage["load_pairs_compared"] += 1
+                    c.coverage["loads_of_a_shared_ir_value"] = c.coverage.get("loads_of_a_shared_ir_value", 0) + (res.get("reloads") or 0)
                     c.coverage.setdefault("reports_compared", 0)
                     c.coverage["reports_compared"] += res["nreports"]
             # ---- K: model vs implementation
